@@ -26,6 +26,9 @@ type seqCfg struct {
 	Names    []string // names events may touch
 	Extra    []string // names that exist on the service but get no events
 	Initial  string   // initial cache document ("" = none)
+	Events   []string // if set, the event alphabet (default: all events for Names)
+	NoDedup  bool     // explore the full history tree: two histories are never merged, so state the
+	// dump cannot see (hidden state a change may introduce) cannot hide behind an equal dump
 }
 
 var epoch = time.Date(2030, 1, 1, 0, 0, 0, 0, time.UTC)
@@ -429,6 +432,9 @@ func replay(cfg seqCfg, hist []string) *world {
 }
 
 func events(cfg seqCfg) []string {
+	if cfg.Events != nil {
+		return cfg.Events
+	}
 	var out []string
 	for _, n := range cfg.Names {
 		out = append(out, "put:"+n, "back:"+n, "failnext:"+n, "secret:"+n, "read:"+n, "lookup:"+n)
@@ -480,7 +486,7 @@ func searchSeq(cfg seqCfg, depth int, deadline func() bool, props map[string]boo
 						k := w.key()
 						mu.Lock()
 						st.Transitions++
-						isNew := !seen[k]
+						isNew := !seen[k] || cfg.NoDedup
 						if isNew {
 							seen[k] = true
 							next = append(next, node{h})
@@ -516,6 +522,9 @@ func searchSeq(cfg seqCfg, depth int, deadline func() bool, props map[string]boo
 		frontier = next
 	}
 	st.States = int64(len(seen))
+	if cfg.NoDedup {
+		st.States = st.Transitions + 1
+	}
 	return st, complete
 }
 
@@ -528,7 +537,7 @@ func restartFromCache(w *world, dir string) []violation {
 		return nil
 	}
 	doc := w.cache.Data
-	dead := &Svc{Dead: true, S: map[string]*svcSecret{}, fail: map[string]int{}, inflt: map[string]int{}, MaxInfl: map[string]int{}, Served: map[string]map[string]bool{}, Act: map[string][]Activation{}, now: func() time.Duration { return 0 }}
+	dead := &Svc{Dead: true, Release: make(chan struct{}), S: map[string]*svcSecret{}, fail: map[string]int{}, inflt: map[string]int{}, MaxInfl: map[string]int{}, Served: map[string]map[string]bool{}, Act: map[string][]Activation{}, now: func() time.Duration { return 0 }}
 	ctx, cancel := context.WithCancel(context.Background())
 	cancel() // with the service unreachable nothing can be fetched anyway; fail at once instead of retrying in real time
 	st2, err := setec.NewStore(ctx, setec.StoreConfig{Client: dead, Secrets: append([]string(nil), w.cfg.Declared...), AllowLookup: true, Cache: &HCache{Data: append([]byte(nil), doc...)}, PollInterval: -1, Logf: func(string, ...any) {}, TimeNow: func() time.Time { return w.clock }})
